@@ -2,6 +2,8 @@
      compose <rtype> <field>...        -> Reject | <wire> <rdlen> <rdlen_compress> <canonical>
      parse <rtype> <msg> <pos> <lim>   -> Ok <field>... | Err short | Err form | Panic
      equnk <t1> <octets> <t2> <octets> -> all=<bool> zone=<bool>   (== inside AllRecordData / ZoneRecordData)
+     optframe <code>=<data>,...        -> Reject | <OPT data>        (Opt::push of every option in turn)
+     optparse <OPT data>               -> Ok <code>=<data>,... | Err short | Err form   (Opt::from_octets + iter)
    Field tokens: numbers in decimal; octets in hex (`-` = empty); names as the
    hex of their uncompressed wire form (root = 00); a TXT sequence as
    [s1,s2,...] with each s in hex (`-` = empty string, [] = no strings). *)
@@ -39,6 +41,15 @@ let tok_of_fval (x : fval) : string =
   | VBytes b -> hex_of_bytes b
   | VName nm -> hex_of_bytes (wire_of_name nm)
   | VStrs l -> tok_of_strs l
+(* option lists: code=hexdata,code=hexdata,...  (`.` = no options) *)
+let opts_of_tok (s : string) : (n * n list) list =
+  if s = "." then [] else
+  List.map (fun w -> match String.split_on_char '=' w with
+                     | [c; d] -> (n_of_int (int_of_string c), bytes_of_hex d)
+                     | _ -> failwith "bad option token") (String.split_on_char ',' s)
+let tok_of_opts (l : (n * n list) list) : string =
+  if l = [] then "." else
+  String.concat "," (List.map (fun (c, d) -> string_of_int (int_of_n c) ^ "=" ^ hex_of_bytes d) l)
 let show_rdlen (o : n option outcome) : string =
   match o with
   | Ok (Some k) -> string_of_int (int_of_n k)
@@ -72,5 +83,15 @@ let handle = function
       let (a, z) = c05_eq_unknown (n_of_int (int_of_string t1)) (bytes_of_hex b1)
                                   (n_of_int (int_of_string t2)) (bytes_of_hex b2) in
       Printf.sprintf "all=%b zone=%b" a z
+  | ["optframe"; l] ->
+      (match c05_optframe (opts_of_tok l) with
+       | None -> "Reject"
+       | Some b -> hex_of_bytes b)
+  | ["optparse"; m] ->
+      (match c05_optparse (bytes_of_hex m) with
+       | Ok l -> "Ok " ^ tok_of_opts l
+       | Err e -> if int_of_n e = 1 then "Err short" else "Err form"
+       | Panic _ -> "Panic"
+       | OutOfFuel -> "OutOfFuel")
   | _ -> failwith "bad case line"
 let () = main handle
